@@ -9,6 +9,7 @@ behaviour is decided by the exhaustive op-sequence sweep (family `life`).
 import Compress.Proofs.XFlateWriterLatch
 import Compress.Proofs.BzWApiLatch
 import Compress.Proofs.MetaWApi
+import Compress.Proofs.MetaRApi
 import Compress.XFlate.ReaderSpec
 import Compress.Facts.Sites
 import Compress.Proofs.FlateApi
@@ -84,6 +85,33 @@ theorem C18_meta_closed (s : MW) (hd : s.done = true) (he : s.err = some .closed
    Compress.Proofs.MetaWApi.closed_forever s hd he⟩
 
 end bzmeta
+
+/-! ### meta.Reader (API-level model `Meta/ReaderApi.lean`) -/
+
+section metaReader
+open Compress.Meta Compress.Proofs.MetaRApi
+
+/-- **meta.Reader: closed means closed, no call order panics.** For every source (any bytes,
+    any fault) and every op sequence (Read of any length, Close, Reset onto any source, in any
+    order): (1) no call returns the nil-dereference outcome the model has for a `decodeBlock`
+    on the released `mr.rd`; (2) a Close that returns nil leaves the reader closed, and so does
+    every state with the closed flag; (3) from a closed reader every Read returns no data and
+    the closed error, every Close returns nil, and the state never changes, for every
+    continuation without Reset; (4) Reset gives exactly a new reader, whatever came before. -/
+theorem C18_meta_reader_closed (src : Src) (ops : List Meta.ROp) :
+    let s := (MR.run (newMR src) ops).1
+    (∀ r ∈ (MR.run (newMR src) ops).2, ¬ panicRes r) ∧
+    (s.close.2 = none → s.close.1.done = true ∧ s.close.1.err = some .closed) ∧
+    (s.done = true ↔ s.err = some .closed) ∧
+    (s.done = true → ∀ ops', noReset ops' → MR.run s ops' = (s, ops'.map closedRes)) ∧
+    (∀ src' ops', MR.run s (.reset src' :: ops') =
+      ((MR.run (newMR src') ops').1, .reset :: (MR.run (newMR src') ops').2)) :=
+  Compress.Proofs.MetaRApi.C18_meta_reader_closed_proof src ops
+
+-- the closed reader: Read after Close on a fresh reader
+example : ((newMR { data := [1, 2, 3] }).close.1.read 4).2 = ([], some .closed) := by decide
+
+end metaReader
 
 /-- the source has the guard shape the models assume (regenerated facts). -/
 theorem C18_guards_in_source :
